@@ -55,6 +55,58 @@ PROPS = {
                 rule="L2: every instruction class x adversarial machine states (registers from {0,1,7FFFh,8000h,FFFEh,FFFFh,random}, segments straddling 2^20, "
                      "counts 0..255, divisors 0/1/-1) with catch_unwind in an overflow-checking build: a PANIC of the real code is a violation; malformed = "
                      "near-miss lines the assembler never emits (must be a reported error in both); divx = MUL/IMUL/DIV/IDIV over the boundary lattice^3 of (AX, DX, operand) x 10 operand forms (divisors 0/1/-1, MIN dividends); non-trivial = outcome/state differs from plain NEXT"),
+    "C08": dict(modules=["Emu8086.Props.C08"], runs=[("l4", "run"), ("l3", "progs")], gen=["Arch", "ILiterals", "PPGrammar"],
+                rule="L4 run: structured terminating programs (procedures first, labels at every position incl. last / before procedures / macro uses / prints, "
+                     "forward jumps, bounded LOOPs, calls of calls, start in the middle, code after hlt) executed by the REAL binary; the executed-instruction "
+                     "trace, final registers and memory (verification hook) and stdout must equal the model's run loop; L3 progs: random whole programs through "
+                     "the real assembler (label/procedure indices, source map); non-trivial = more than one instruction executed / program accepted"),
+    "C10": dict(modules=["Emu8086.Props.C10"], runs=[("l3", "shapes"), ("l3", "progs"), ("l4", "shapes")], gen=["Arch", "ILiterals", "PPGrammar"],
+                rule="shapes: EVERY code-emitting alternative of the CURRENT assembler grammar x every spelling of its mnemonic table x sampled operands "
+                     "(generated from the grammar on each run); L3 = real Preprocessor vs model (byte-identical lines); L4 = the same programs executed by the real "
+                     "binary: the real DataParser / Interpreter / PrintParser judge every emitted line (any 'Internal Error' is a violation); non-trivial = accepted program"),
+    "C11": dict(modules=["Emu8086.Props.C11"], runs=[("l3", "spell"), ("l3", "shapes")], gen=["Arch", "ILiterals", "PPGrammar"],
+                rule="spell: programs rendered from the grammar under two independent spelling choices (case of every keyword/register/mnemonic incl. synonyms, "
+                     "radix / leading zeros / negative decimal with the same bit pattern / OFFSET of a label with that offset for every constant, amount and kind of "
+                     "white space and line breaks): the real assembler must emit identical code and data lists for both (or refuse both with the same diagnostic) and "
+                     "agree with the model; non-trivial = the two renderings differ textually"),
+    "C12": dict(modules=["Emu8086.Props.C12"], runs=[("l3", "data"), ("l4", "data")], gen=["Arch", "ILiterals", "PPGrammar"],
+                rule="random SET/DB/DW sequences of all four kinds (values over the full signed/unsigned ranges, arrays 0..65535 elements incl. segment overflow, "
+                     "strings with every printable character, segments up to FFFFh so that data crosses the 1 MB wrap); L3: emitted data lines, label offsets, OFFSET "
+                     "values vs model; L4: the WHOLE memory image after loading (all non-zero bytes, via the verification hook) and `print mem` output vs the model's loader"),
+    "C13": dict(modules=["Emu8086.Props.C13"], runs=[("l3", "macros"), ("l3", "progs")], gen=["Arch", "ILiterals", "PPGrammar"],
+                rule="random macro libraries (1-5 macros, 0-3 parameters whose names are prefixes/substrings of each other and of body tokens, macros using earlier "
+                     "and later macros incl. cycles, names passed as arguments, uses inside procedures) x use sites with register / number / bracketed-memory / label "
+                     "arguments: output of the real assembler vs the model's expansion; non-trivial = accepted program"),
+    "C14": dict(modules=["Emu8086.Props.C14"], runs=[("l3", "errors"), ("l4", "diag")], gen=["Arch", "ILiterals", "PPGrammar"],
+                rule="a valid program x every applicable single semantic mutation (undefined / data-label jump target, duplicate label / procedure, data operand or "
+                     "OFFSET on a code label or unknown name, call of a non-procedure, constants out of range by one, operand size mismatch, two memory operands, "
+                     "unsupported instructions / interrupts, missing or data-typed start) + boundary values of every constant range; the real binary must print a "
+                     "diagnostic and execute nothing (empty trace from the hook); non-trivial = mutant refused"),
+    "C15": dict(modules=["Emu8086.Props.C15"], runs=[("l4", "fuzz"), ("l2", "malformed")], gen=["Arch", "ILiterals", "PPGrammar"],
+                rule="seeded byte/token-level mutations of valid programs (delete / insert / replace / duplicate spans; alphabet incl. NUL, DEL, non-ASCII, NBSP), "
+                     "size families (10^5 digits, 5000 lines, 70 000-character strings, macro chains), empty input, no final newline — run by the real binary under a "
+                     "watchdog (exit 101 / signal / timeout is a violation) and compared with the model; L2 malformed lines against the interpreter in-process"),
+    "C16": dict(modules=["Emu8086.Props.C16"], runs=[("l4", "diag"), ("l4", "prompt"), ("l4", "run")], gen=["Arch", "ILiterals", "PPGrammar"],
+                rule="single-token corruptions at every token position of a valid program, error mutants with shifted lines / no trailing newline / comment lines, "
+                     "stepping runs and prints/interrupts at first/middle/last lines and inside macros and procedures: line number, column and line text in the real "
+                     "binary's messages must equal the model's (computed from the source map and byte offsets)"),
+    "C17": dict(modules=["Emu8086.Props.C17"], runs=[("l4", "prints"), ("l4", "prompt")], gen=["Arch", "ILiterals", "PPGrammar"],
+                rule="random machine states established by generated programs x print reg / flags / mem with ranges of length 0/1/15/16/17/31/32/100, ending at "
+                     "FFFFFh, backwards, beyond 2^20, DS-relative with DS up to FFFFh, constants in all radices; stdout compared byte-for-byte with the model; the same "
+                     "commands typed at the prompt; state after printing compared (trace hook)"),
+    "C18": dict(modules=["Emu8086.Props.C18"], runs=[("l4", "ints")], gen=["Arch", "ILiterals", "PPGrammar"],
+                rule="INT 21h / 10h x AH in supported values and random others x buffers at random segments incl. FFFFh:FFF0h.. (wrap) x capacity 0/1/2/3/5/255 x "
+                     "stdin families (empty, newline only, shorter, equal, longer than capacity, unterminated, CRLF, two lines): stdout, registers and memory after the "
+                     "service vs the model"),
+    "C19": dict(modules=["Emu8086.Props.C19"], runs=[("l4", "diag", {"VERIF_CLI_REPEAT": "3"}), ("l4", "run", {"VERIF_CLI_REPEAT": "2"}), ("l2", "arith+logic+shift+muldiv+mov+xfer+stack+jump+string+ctl+malformed")],
+                gen=["Arch", "ILiterals", "PPGrammar", "Hygiene"],
+                rule="every L4 case is run 2-3 times in separate processes: outputs, traces and final states must be byte-identical (and equal to the deterministic "
+                     "model), in particular programs with several simultaneous errors; L2: ONE Interpreter object processes all requests (valid and malformed lines "
+                     "interleaved, thousands per run) and must agree with the stateless model on each"),
+    "C20": dict(modules=["Emu8086.Props.C20"], runs=[("l4", "prompt")], gen=["Arch", "ILiterals", "PPGrammar"],
+                rule="terminating programs x stepping enabled by -i, by a POPF-set trap flag, or by INT 3 at random places x random prompt scripts (next in all "
+                     "spellings, print commands, garbage, empty lines, quit, premature end of input incl. an unterminated last line): stdout, exit status, trace and "
+                     "final state of the real binary vs the model"),
 }
 
 def log(*a):
@@ -224,7 +276,7 @@ def empty_result():
     return dict(n=0, diff_model=[], diff_spec=[], kf_lines=[], kf={}, nontrivial=0, distinct_nontrivial=0, bad=0,
                 samples=[], summary=True, other=[])
 
-def tcorr_run(level, group, tier, seed, nshards=NSHARDS, timeout=7200):
+def tcorr_run(level, group, tier, seed, nshards=NSHARDS, timeout=7200, extra_env=None):
     """run one (level, group) sharded; returns merged result, and a 'broken' message if the machinery failed"""
     procs = []
     gen = os.path.join(ROOT, "tools", "gen_l3.py")
@@ -235,7 +287,10 @@ def tcorr_run(level, group, tier, seed, nshards=NSHARDS, timeout=7200):
                    f"| VERIF_CLI='{CLI}' '{HARNESS}' replay | '{DRIVER}'")
         else:
             cmd = f"'{HARNESS}' {level} {group} {tier} {seed} {i} {nshards} | '{DRIVER}'"
-        procs.append(subprocess.Popen(["bash", "-o", "pipefail", "-c", cmd], stdout=subprocess.PIPE, stderr=subprocess.PIPE))
+        env = dict(os.environ)
+        if extra_env:
+            env.update(extra_env)
+        procs.append(subprocess.Popen(["bash", "-o", "pipefail", "-c", cmd], stdout=subprocess.PIPE, stderr=subprocess.PIPE, env=env))
     res = empty_result()
     broken = None
     for i, p in enumerate(procs):
@@ -378,8 +433,9 @@ def run_check(pid, tier, seed, replay):
         if os.path.exists(cp):
             r, b = replay_lines(open(cp).read().split("\n"))
             merge(total, r); machinery_broken = machinery_broken or b
-        for level, group in cfg["runs"]:
-            r, b = tcorr_run(level, group, tier, seed)
+        for run in cfg["runs"]:
+            level, group = run[0], run[1]
+            r, b = tcorr_run(level, group, tier, seed, extra_env=(run[2] if len(run) > 2 else None))
             merge(total, r); machinery_broken = machinery_broken or b
     if machinery_broken or total["bad"]:
         log(f"CHECK-BROKEN property={pid} correspondence machinery failed: {machinery_broken or 'BADREQ lines'}")
@@ -401,9 +457,11 @@ def run_check(pid, tier, seed, replay):
     if not spec_viol and need_search and not replay:
         # the property is no longer SHOWN to hold: look harder for a concrete failing input
         searched = empty_result()
-        for level, group in cfg["runs"]:
+        for run in cfg["runs"]:
+            level, group = run[0], run[1]
             for s2 in ([seed + 1000] if tier == "thorough" else [seed + 1000, seed + 2000]):
-                r, b = tcorr_run(level, group, "thorough" if tier == "quick" else "thorough", s2, timeout=3600)
+                r, b = tcorr_run(level, group, "thorough" if (tier == "quick" and level in ("l1", "l2")) else tier, s2, timeout=3600,
+                                 extra_env=(run[2] if len(run) > 2 else None))
                 merge(searched, r)
                 if r["diff_spec"]:
                     break
@@ -454,7 +512,7 @@ def run_check(pid, tier, seed, replay):
             "bv_decide_axioms": len(bv_axioms),
             "gen_tables": gen_summary,
             "correspondence": {
-                "runs": [f"{l}/{g}" for l, g in cfg["runs"]],
+                "runs": [f"{r[0]}/{r[1]}" for r in cfg["runs"]],
                 "disagreements_model": len(total["diff_model"]),
                 "violations_spec": len(spec_viol),
                 "known_findings_hit": total["kf"],
